@@ -34,10 +34,10 @@ def lemma_f1(run):
     run.extra_cov.setdefault("lemmas", []).append(
         f"F1 int(a/1000)==a//1000 for all 0<=a<10**6: complete enumeration under CPython {ver}: {'ok' if ok else 'FAILED'} ({dt:.1f}s)")
     n, d = 1, 1 if ok else 0
+    r, dt2 = fplemmas.f1_z3()
+    run.extra_cov["lemmas"].append(f"F1 by z3 Float64 bit-blasting (RNE division, truncation), all 0<=a<10**6: {r} ({dt2:.1f}s)")
+    n, d = n + 1, d + (1 if r == "unsat" else 0)
     if run.tier == "thorough":
-        r, dt2 = fplemmas.f1_z3()
-        run.extra_cov["lemmas"].append(f"F1 by z3 Float64 (RNE division, truncation): {r} ({dt2:.1f}s)")
-        n, d = n + 1, d + (1 if r == "unsat" else 0)
         ok2, dt3 = fplemmas.parse_all_microseconds()
         run.bounded.append({"what": "real _timestamp_parse on all 10**6 microsecond values (complete finite domain)", "bound": "10**6",
                             "cases": 10 ** 6, "ok": ok2})
@@ -76,7 +76,7 @@ PROP = dict(
                 "Event.__init__ (all four keys present: the class invariant used by every other property), __eq__, to_json_dict "
                 "(schema clauses generated from aw_core/schemas/event.json) and the two round trips (ghost drivers) are discharged from "
                 "the source of aw_core/models.py; the millisecond floor int(us/1000)*1000 rests on lemma F1, established by complete "
-                "enumeration of its finite domain under the repository's CPython on every run and by z3 Float64 on the thorough tier. "
+                "enumeration of its finite domain under the repository's CPython and by z3 Float64 bit-blasting, both on every run. "
                 "What iso8601, isoformat and timedelta(seconds=float) do is assumed (listed).",
 )
 F = "/repo/aw_core/models.py"
